@@ -271,6 +271,14 @@ class Harness:
                         want = ("L", [ident(i), ("A", name.encode()), ("A", unit.encode())])
                         if not (item[0] == "L" and len(item[1]) == 3 and _id_eq(item[1][0], i) and tuple(item[1][1:]) == tuple(want[1][1:])):
                             self.v(f"S1F12-entry|id={i}|ids={ids}", got=repr(item), want=repr(want))
+        # an id item holding two numbers is not the id of its first number: <U4 10 99> names no status variable, <U4 20 7> no constant
+        for stream, function, first in ((1, 3, 10), (2, 13, 20)):
+            node, _ = self.request(stream, function, e5.enc(("L", [("U4", [first, 99])])))
+            if node is not None:
+                if node[0] != "L" or len(node[1]) != 1:
+                    self.v(f"S{stream}F{function + 1}-item-count|two-valued-id", got=repr(node)[:200])
+                elif _item_len(node[1][0]) != 0:
+                    self.v(f"S{stream}F{function + 1}-unknown-id-not-empty|two-valued-id", got=repr(node[1][0]))
         # S2F13 / S2F29
         for ids in ID_LISTS_EC:
             node, _ = self.request(2, 13, e5.enc(("L", [ident(i) for i in ids])))
